@@ -1024,3 +1024,19 @@ func short(s string) string {
 	}
 	return s
 }
+
+// unwrap strips representation-only conversions (interface boxing, chan direction, named/unnamed).
+func unwrap(v ssa.Value) ssa.Value {
+	for {
+		switch x := v.(type) {
+		case *ssa.ChangeType:
+			v = x.X
+		case *ssa.MakeInterface:
+			v = x.X
+		case *ssa.ChangeInterface:
+			v = x.X
+		default:
+			return v
+		}
+	}
+}
